@@ -76,7 +76,8 @@ DOMAIN = {
                       ["compute_tip_position", "correct_tip_offset", "correct_force_slope"]],
     "preprocessing_options": [{}, {"correct_tip_offset": {"method": "fit_constant_line"}}],
     "range_type": ["absolute", "relative cp"],
-    "range_x": [[0, 0], [0.0, 0.0], [-1e-6, 2e-6], [], [-2e-6, 0]],
+    # (open-ended intervals are legitimate: the fitter supports an infinite bound)
+    "range_x": [[0, 0], [0.0, 0.0], [-1e-6, 2e-6], [], [-2e-6, 0], [float("-inf"), 5e-7], [0, float("inf")]],
     "segment": [0, 1],
     "weight_cp": [0, 0.0, 5e-7, 1e-6, 2.5e-7],
     "rating regressor": ["Extra Trees", "Random Forest", "none"],
